@@ -562,7 +562,7 @@ def behaviour_to_record(states, seed, k):
     ev = [sorted(int(p) - 1 for p in (e["__set__"] if isinstance(e, dict) else e)) for e in last["evald"]]
     return dict(h=h, w=w, u=u, **_geometry_b(rng, sched), sched=list(sched), fa=list(cfg["fa"]), ra=int(cfg["ra"]),
                 v=v, via=ITER_VIAS[k % len(ITER_VIAS)], has_m=True, m_result=list(last["result"]), m_evald=ev,
-                m_actions=[a for a, _ in states])
+                m_actions=[a if a != "?" else f"Level({st['level']})" for a, st in states])
 
 
 SCHED_POOL = (2, 4, 8, 16)
@@ -682,7 +682,7 @@ def families(quick):
     return [(1, 1, F, False, GEOMS), (1, 2, F, False, GEOMS), (2, 1, F, False, GEOMS), (1, 3, F, False, GEOMS),
             (3, 1, F, False, GEOMS), (2, 2, F, False, (G1, G2)), (2, 3, (1, 2, 3), False, (G1,)), (3, 2, (1, 2, 4), False, (G2,)),
             (2, 3, F, True, GEOMS), (3, 2, F, True, GEOMS), (3, 3, F, True, (G1, G2)), (3, 3, (1, 2), False, (G1,)),
-            (3, 3, (1, 3), False, (G2,)), (1, 4, F, False, (G2,))]
+            (1, 4, F, False, (G2,))]
 
 
 def _family_count(fams):
@@ -714,7 +714,7 @@ def run(ctx):
     sim_scheds = [(2, 4), (4, 2), (2, 4, 8), (4, 2, 8), (2, 8, 16), (2, 4, 8, 16), (16, 2, 8, 4)]
     ctx.bounds = {
         "A_families(H,W,sub sizes,uniform-only,geometries(my,mx,oy,ox))": [[h, w, list(s), uni, [list(g) for g in gs]] for h, w, s, uni, gs in fams], "A_random_instances": 60 if quick else 600, "A_random_max_side": 6,
-        "B_exhaustive": "np<=2 x schedule length 2 (fa 1/2, 3/4); np=1 x lengths 3,4" if quick else "np<=2 x lengths 2,3; np=1 x length 4; np=3 x length 2 (values -2,0,1,2)",
+        "B_exhaustive": "np<=2 x schedule length 2 (fa 1/2, 3/4); np=1 x lengths 3,4" if quick else "np<=2 x length 2; np=1 x length 4; np<=2 x length 3 and np<=3 x length 2 with values -2,0,1,2",
         "B_values": list(VALUES), "B_fa": [list(f) for f in FAS], "B_ra": ["none", 1],
         "B_simulated_behaviours": 240 if quick else 3000, "B_simulate_schedules": [list(s) for s in sim_scheds], "B_simulate_np": 3,
         "B_random_tables": 90 if quick else 900, "B_random_functions": 60 if quick else 600,
@@ -723,17 +723,21 @@ def run(ctx):
     # ---- Part B exhaustive model checking runs in the background while Part A is enumerated and replayed
     bg_err = []
 
+    small_values = f"MCValues == {_tla_set(VALUES)}", "MCValues == {-2, 0, 1, 2}"
+
     def exhaustive_b():
         try:
-            d2 = _b_defs([(2, 4)] if quick else [(2, 4), (2, 4, 8)])
+            d2 = _b_defs([(2, 4)])
             if quick:  # 99/100 is covered by the one-pixel run below
                 d2 = d2.replace(", <<99, 100>>", "")
             ctx.tlc("OverSample", MC_B_CFG % 2, defs=d2, tag="MC_OverSampleB_np2", timeout=3000, workers=6)
             ctx.tlc("OverSample", MC_B_CFG % 1, defs=_b_defs([(2, 4, 8), (2, 4, 8, 16)] if quick else [(2, 4, 8, 16)]),
-                    tag="MC_OverSampleB_np1", timeout=3000, workers=4)
+                    tag="MC_OverSampleB_np1", timeout=3000, workers=4, coverage=True)
             if not quick:
-                d = _b_defs([(2, 4)]).replace(f"MCValues == {_tla_set(VALUES)}", "MCValues == {-2, 0, 1, 2}")
-                ctx.tlc("OverSample", MC_B_CFG % 3, defs=d, tag="MC_OverSampleB_np3", timeout=3000, workers=6)
+                ctx.tlc("OverSample", MC_B_CFG % 2, defs=_b_defs([(2, 4, 8)]).replace(*small_values),
+                        tag="MC_OverSampleB_np2_len3", timeout=3000, workers=6)
+                ctx.tlc("OverSample", MC_B_CFG % 3, defs=_b_defs([(2, 4)]).replace(*small_values),
+                        tag="MC_OverSampleB_np3", timeout=3000, workers=6)
         except BaseException as e:  # noqa
             bg_err.append(e)
 
@@ -795,8 +799,9 @@ def run(ctx):
         "user functions are integer-valued functions of the lattice point (affine, quadratic, |.|, step, mod) or table functions; "
         "iterate schedules use pairwise distinct power-of-two sub sizes >= 2 so that binned table values are exact and the "
         "probe can recognise the level from the sub-pixel spacing",
-        "the first schedule entry may be compared with the plain sub-size-1 evaluation (documented scheme) or have no previous "
-        "level: the trace spec accepts either reading (the statement is silent)",
+        "the first schedule entry may be compared with the plain sub-size-1 evaluation (the documented scheme, which the machine "
+        "models) or have no previous level: the statement is silent, the trace spec accepts either reading; the comparison with "
+        "the machine's final state applies when the call follows the documented reading",
         "pixel geometry (centres from shape, scales, origin) is the one of C02",
     ]
 
